@@ -18,8 +18,12 @@ def both(quick, thorough):
 
 
 PLAN = {
-    "C01": both((160, 40), (2400, 420)),
-    "C02": both((160, 40), (2400, 420)),
+    "C01": {"quick": both((160, 40), (2400, 420))["quick"] + [dict(hist("A", 300, 30), args=["--max", 300, "--budget-s", 30, "--threads", 16, "--profile", "lifecycle"])] + mon("bigids", ("A", "B")),
+            "thorough": both((160, 40), (2400, 420))["thorough"] + [dict(hist("A", 6000, 300), args=["--max", 6000, "--budget-s", 300, "--threads", 16, "--profile", "lifecycle"]),
+                                                                     dict(hist("B", 6000, 300), args=["--max", 6000, "--budget-s", 300, "--threads", 16, "--profile", "lifecycle"])] + mon("bigids", ("A", "B"))},
+    "C02": {"quick": both((160, 40), (2400, 420))["quick"] + [dict(hist("A", 300, 30), args=["--max", 300, "--budget-s", 30, "--threads", 16, "--profile", "lifecycle"])] + mon("bigids", ("A", "B")),
+            "thorough": both((160, 40), (2400, 420))["thorough"] + [dict(hist("A", 6000, 300), args=["--max", 6000, "--budget-s", 300, "--threads", 16, "--profile", "lifecycle"]),
+                                                                     dict(hist("B", 6000, 300), args=["--max", 6000, "--budget-s", 300, "--threads", 16, "--profile", "lifecycle"])] + mon("bigids", ("A", "B"))},
     "C03": both((600, 40), (12000, 420)),
     "C04": both((500, 40), (10000, 420)),
     "C05": both((500, 40), (10000, 420)),
@@ -72,7 +76,11 @@ RULES = {
                 "random encryption policies printed with random spacing/parentheses, plus every right of Omega as a "
                 "single-conjunction target; every (key, encapsulation) pair is decapsulated. Distinct = hash of "
                 "(structure shape, user-policy shape, encryption-policy shape, cover reasons); non-trivial = a must-open "
-                "pair whose cover goes through a lower hierarchical attribute, an unmentioned dimension or '*'.",
+                "pair whose cover goes through a lower hierarchical attribute, an unmentioned dimension or '*'. Second workload: "
+                "lifecycle histories (rekey/prune/disable/update/refresh) in which keys generated afterwards and encapsulations "
+                "under the newest public key are judged by the same cover relation. Third: attributes planted at ids needing "
+                "2-3 LEB128 bytes and differing by 128/256 (full key x encapsulation table, right names compared with an "
+                "independent LEB128 encoding).",
         "evaluation_counters": ["decaps_evaluated", "usk_wire_checks"],
         "min_evaluations": {"quick": 2000, "thorough": 20000},
     },
